@@ -34,10 +34,14 @@ def prelude():
     from random import Random  # noqa: PLC0415
 
     S = lib()
+    from vf import calls as C_  # noqa: PLC0415
     from vf.ref import data as D_  # noqa: PLC0415
 
     table = D_.countries()
     rng = env.rng("prelude")
+    # calls into the registry module that fail must leave everything as it was
+    for how in ("get_unknown", "build_index_missing_key", "manipulate_raises"):
+        C_._registry_fail(S, how)
     for cc in ["DE", "GB", "FR", "NO", "PL", "IS", "XK", "HN", "GW"] + rng.sample(sorted(table), 8):
         spec = table.get(cc)
         if not spec:
@@ -90,12 +94,56 @@ def from_bban_sloppy_arguments(mon, cc, b0, table):
         ob = G_.random_bban(table[other], rng_, "letters")
         o = observe(S.IBAN.from_bban, cc, S.BBAN(other, ob))
         _judge_from_bban(mon, o, {"country_arg": cc, "bban_arg": f"BBAN({other!r}, {ob!r})"}, table)
+    # ... and BBAN objects of countries that share this country's structure: the text fits, the label does not
+    twins = [c for c in sorted(table) if c != cc and table[c]["bban_spec"] == table[cc]["bban_spec"]]
+    for other in rng_.sample(twins, min(2, len(twins))):
+        foreign_bban_probe(mon, cc, other, b0, table)
     Code = enum.Enum("Code", {cc: cc}, type=str) if cc.isalpha() and len(cc) == 2 else None
     if Code is not None:
         o = observe(S.IBAN.from_bban, Code[cc], b0)
         mon.ev()
         if not o.ok or str(o.value) != R.make_iban(cc, b0):
             mon.viol("from_bban_country_code_as_str_enum_member", {"country_arg": f"<str-enum {cc}>", "bban_arg": b0}, R.make_iban(cc, b0), o.brief())
+
+
+def _obj_state(o):
+    return (type(o).__name__, str(o), getattr(o, "country_code", None), id(getattr(o, "bban", None)), str(getattr(o, "bban", "")), getattr(getattr(o, "bban", None), "country_code", None))
+
+
+def foreign_bban_probe(mon, cc, other, b0, table, **kw):
+    """A BBAN object labelled with country `other` whose text `b0` fits the structure of `cc` is handed to the
+    constructors of `cc`: the result belongs to `cc` in every respect and the argument object stays what it was.
+    Returns the observation of IBAN.from_bban(cc, obj, **kw)."""
+    S = lib()
+    obj = S.BBAN(other, b0)
+    holder = S.IBAN(R.make_iban(other, b0), allow_invalid=True)  # an IBAN of the other country holding an equal BBAN
+    before = (_obj_state(obj), _obj_state(holder), _obj_state(holder.bban))
+    w = {"country_arg": cc, "bban_arg": f"BBAN({other!r}, {b0!r})", "kw": kw}
+    mon.ev()
+    mon.tally("foreign_bban_object_probes")
+    o = observe(S.IBAN.from_bban, cc, obj, **kw)
+    want = R.make_iban(cc, b0)
+    if o.ok:
+        if str(o.value) != want:
+            mon.viol("from_bban_ignores_country_argument_for_bban_object", w, want, str(o.value))
+        elif getattr(o.value.bban, "country_code", None) != cc or o.value.country_code != cc:
+            mon.viol("from_bban_result_carries_bban_of_other_country", w, cc, [o.value.country_code, getattr(o.value.bban, "country_code", None)])
+    elif not is_lib_exc(o.exc):
+        mon.viol(f"escape:from_bban:{o.exc_name}", w, "library error", o.brief())
+    # the plain constructors given the foreign objects
+    o2 = observe(S.BBAN, cc, obj)
+    if o2.ok and (str(o2.value) != b0 or o2.value.country_code != cc):
+        mon.viol("bban_constructor_result_not_of_requested_country", w, [cc, b0], [o2.value.country_code, str(o2.value)])
+    o3 = observe(S.BBAN, cc, holder.bban)
+    if o3.ok and (str(o3.value) != b0 or o3.value.country_code != cc):
+        mon.viol("bban_constructor_result_not_of_requested_country", w, [cc, b0], [o3.value.country_code, str(o3.value)])
+    o4 = observe(S.IBAN, holder, allow_invalid=True)
+    if o4.ok and str(o4.value) != str(holder):
+        mon.viol("iban_constructor_changed_text_of_iban_object", w, str(holder), str(o4.value))
+    after = (_obj_state(obj), _obj_state(holder), _obj_state(holder.bban))
+    if after != before:
+        mon.viol("constructor_modified_its_argument_object", w, before, after)
+    return o
 
 
 def is_lib_exc(e) -> bool:
